@@ -477,6 +477,8 @@ func checkC02(w *World, c *Check, tier string) {
 	c.floor("C02.name", 100)
 	c.floor("C02.dup", 14)
 	checkDynamicNames(w, c, "C02.dup")
+	c.floor("C02.asis", 8)
+	checkQuotedAsIs(w, c, "C02.asis")
 	checkMapTermDecider(w, c)
 	c.floor("C02.kind", 100)
 	c.floor("C02.brace", 14)
@@ -485,6 +487,9 @@ func checkC02(w *World, c *Check, tier string) {
 		c.bad("C02.raw", "anchor", "-", err.Error())
 		return
 	}
+	// (kind:pair) the scalar writers and their readers are inverse by construction: bool unquoted, float shortest
+	// round trip, durations through the xsd:duration formatter on every path
+	checkScalarPairs(w, c, t, "C02.pair")
 	checkRaw(w, c, t)
 	checkEscTable(w, c)
 	checkNamesDupKind(w, c, t)
